@@ -938,3 +938,284 @@ struct Identity<const N: usize> {
     request_salt: Option<[u8; N]>,
     user: Option<ServerUser<N>>,
 }
+
+//@@ octo-squirrel/src/manager/packet_window.rs:9-9  const BLOCK_BIT_LOG  sha=81c72e81da244832
+// SPDX-License-Identifier: MIT
+//
+// Copyright (C) 2017-2023 WireGuard LLC. All Rights Reserved.
+
+// ! Packet window
+// !
+// ! https://github.com/WireGuard/wireguard-go/blob/master/replay/replay.go
+
+const BLOCK_BIT_LOG: u64 = 6;
+
+//@@ octo-squirrel/src/manager/packet_window.rs:10-10  const BLOCK_BITS  sha=359051a76c40451f
+// 1<<6 == 64 bits
+const BLOCK_BITS: u64 = 64;
+
+//@@ octo-squirrel/src/manager/packet_window.rs:11-11  const RING_BLOCKS  sha=30a9262fbdbce066
+// must be power of 2
+const RING_BLOCKS: u64 = 128;
+
+//@@ octo-squirrel/src/manager/packet_window.rs:12-12  const WINDOW_SIZE  sha=ccd1a7228950fb97
+// must be power of 2
+const WINDOW_SIZE: u64 = 8128;
+
+//@@ octo-squirrel/src/manager/packet_window.rs:13-13  const BLOCK_MASK  sha=13ea65d8ac83f1c0
+const BLOCK_MASK: u64 = 127;
+
+//@@ octo-squirrel/src/manager/packet_window.rs:14-14  const BIT_MASK  sha=de77e44d4c0469fe
+const BIT_MASK: u64 = 63;
+
+//@@ octo-squirrel/src/manager/packet_window.rs:17-21  struct PacketWindowFilter  sha=14e3705de7718919
+/// Packet window for checking `packet_id` is in the sliding window
+#[derive(Clone)]
+struct PacketWindowFilter {
+    last_packet_id: u64,
+    packet_ring: [u64; RING_BLOCKS as usize],
+}
+
+//@@ octo-squirrel/src/manager/packet_window.rs:23-27  impl Default for PacketWindowFilter  sha=6656fdac9d11bd5a
+impl PacketWindowFilter {
+    fn default() -> PacketWindowFilter {
+        PacketWindowFilter::new()
+    }
+}
+
+//@@ octo-squirrel/src/manager/packet_window.rs:29-77  impl PacketWindowFilter  sha=53b4fa63fa650a76
+impl PacketWindowFilter {
+    /// Create an empty filter
+    fn new() -> PacketWindowFilter {
+        PacketWindowFilter { last_packet_id: 0, packet_ring: [0u64; RING_BLOCKS as usize] }
+    }
+
+    /// Reset filter to the initial state
+    fn reset(&mut self) {
+        self.last_packet_id = 0;
+        self.packet_ring[0] = 0;
+    }
+
+    /// Check and remember the `packet_id`
+    ///
+    /// Overlimit `packet_id >= limit` are always rejected
+    fn validate_packet_id(&mut self, packet_id: u64, limit: u64) -> bool {
+        if packet_id >= limit {
+            return false;
+        }
+
+        let mut index_block = packet_id >> BLOCK_BIT_LOG;
+        if packet_id > self.last_packet_id {
+            // Move the window forward
+
+            let current = self.last_packet_id >> BLOCK_BIT_LOG;
+            let mut diff = index_block - current;
+            if diff > RING_BLOCKS {
+                // Clear the whole filter
+                diff = RING_BLOCKS;
+            }
+            for d in 1..=diff {
+                let i = current + d;
+                self.packet_ring[(i & BLOCK_MASK) as usize] = 0;
+            }
+            self.last_packet_id = packet_id;
+        } else if self.last_packet_id - packet_id > WINDOW_SIZE {
+            // Behind the current window
+            return false;
+        }
+
+        // Check and set bit
+        index_block &= BLOCK_MASK;
+        let index_bit = packet_id & BIT_MASK;
+        let old = self.packet_ring[index_block as usize];
+        let new = old | (1 << index_bit);
+        self.packet_ring[index_block as usize] = new;
+        old != new
+    }
+}
+
+//@@ octo-squirrel/src/codec/shadowsocks/udp.rs:34-36  struct AEADCipherCodec  sha=f8e930065e2a4dbb
+struct udp__AEADCipherCodec<const N: usize> {
+    kind: CipherKind,
+}
+
+//@@ octo-squirrel/src/codec/shadowsocks/udp.rs:38-341  impl AEADCipherCodec {fn new,fn encode,fn new_encoder,fn decode,fn new_decoder}  sha=4e57777643e1db06
+impl<const N: usize> udp__AEADCipherCodec<N> {
+    fn new(kind: CipherKind) -> Self {
+        Self { kind }
+    }
+
+    fn encode(&self, context: &udp__Context<N>, session: &udp__Session<N>, address: &Address, item: BytesMut, dst: &mut BytesMut) -> anyhow::Result<()> {
+        match (self.kind.is_aead_2022(), context.stream_type) {
+            (true, Mode::Client) => self.encode_client_packet_aead_2022(context, session, address, item, dst),
+            (true, Mode::Server) => self.encode_server_packet_aead_2022(context, session, address, item, dst),
+            (false, _) => {
+                let salt = &mut [0; N];
+                dice::fill_bytes(salt);
+                dst.extend_from_slice(&salt[..]);
+                let mut temp = BytesMut::with_capacity(address__length(address) + item.remaining());
+                address__encode(address, &mut temp);
+                temp.extend_from_slice(&item);
+                let mut encoder = self.new_encoder(context.key, salt)?;
+                encoder.encode_packet(temp, dst).map_err(|e| verif_err())
+            }
+        }
+    }
+
+    fn new_encoder(&self, key: &[u8], salt: &[u8]) -> anyhow::Result<ChunkEncoder> {
+        ssaead__new_encoder(self.kind, key, salt).map_err(|e| verif_err())
+    }
+
+    fn decode(&self, context: &udp__Context<N>, src: &mut BytesMut) -> anyhow::Result<udp__SessionPacket<N>> {
+        match (self.kind.is_aead_2022(), context.stream_type) {
+            (true, Mode::Client) => self.decode_server_packet_aead_2022(context, src),
+            (true, Mode::Server) => self.decode_client_packet_aead_2022(context, src),
+            (false, _) => {
+                if src.remaining() < context.key.len() {
+                    return Err(verif_err());
+                }
+                let salt = src.split_to(context.key.len());
+                let mut decoder = self.new_decoder(context.key, &salt).map_err(verif_err_from)?;
+                let mut packet = decoder.decode_packet(src).map_err(|e| verif_err())?;
+                let address = address__decode(&mut packet)?;
+                Ok((packet, address, udp__Session::default()))
+            }
+        }
+    }
+
+    fn new_decoder(&self, key: &[u8], salt: &BytesMut) -> anyhow::Result<ChunkDecoder> {
+        ssaead__new_decoder(self.kind, key, salt).map_err(|e| verif_err())
+    }
+}
+
+//@@ octo-squirrel/src/codec/shadowsocks/udp.rs:343-343  type SessionPacket  sha=2a9212c2fdd9b1f5
+type udp__SessionPacket<const N: usize> = (BytesMut, Address, udp__Session<N>);
+
+//@@ octo-squirrel/src/codec/shadowsocks/udp.rs:345-348  struct SessionCodec  sha=3689553d9c2c80f8
+struct udp__SessionCodec<'a, const N: usize> {
+    context: udp__Context<'a, N>,
+    cipher: udp__AEADCipherCodec<N>,
+}
+
+//@@ octo-squirrel/src/codec/shadowsocks/udp.rs:350-369  impl SessionCodec  sha=dfceca2ce4f76fd4
+impl<'a, const N: usize> udp__SessionCodec<'a, N> {
+    fn new(context: udp__Context<'a, N>, cipher: udp__AEADCipherCodec<N>) -> udp__SessionCodec<'a, N> {
+        udp__SessionCodec { context, cipher }
+    }
+
+    fn encode(&self, verif_arg2: udp__SessionPacket<N>, dst: &mut BytesMut) -> anyhow::Result<()> { let (content, address, session) = verif_arg2;
+        self.cipher.encode(&self.context, &session, &address, content, dst)
+    }
+
+    fn decode(&self, src: &mut BytesMut) -> anyhow::Result<Option<udp__SessionPacket<N>>> {
+        if src.is_empty() {
+            Ok(None)
+        } else {
+            let len = src.len();
+            let mut src = src.split_to(len);
+            let (content, address, session) = self.cipher.decode(&self.context, &mut src)?;
+            Ok(Some((content, address, session)))
+        }
+    }
+}
+
+//@@ octo-squirrel/src/codec/shadowsocks/udp.rs:371-377  struct Context  sha=1530ebc6b918883e
+struct udp__Context<'a, const N: usize> {
+    stream_type: Mode,
+    user_manager: Option<Arc<ServerUserManager<N>>>,
+    key: &'a [u8],
+    identity_keys: &'a [[u8; N]],
+}
+
+//@@ octo-squirrel/src/codec/shadowsocks/udp.rs:379-388  impl Context  sha=8c24f917f48b55c1
+impl<const N: usize> udp__Context<'_, N> {
+    fn new<'a>(
+        stream_type: Mode,
+        user_manager: Option<Arc<ServerUserManager<N>>>,
+        key: &'a [u8],
+        identity_keys: &'a [[u8; N]],
+    ) -> udp__Context<'a, N> {
+        udp__Context { stream_type, user_manager, key, identity_keys }
+    }
+}
+
+//@@ octo-squirrel/src/codec/shadowsocks/udp.rs:390-396  struct Session  sha=f14d3bc94bb4d5cf
+struct udp__Session<const N: usize> {
+    client_session_id: u64,
+    server_session_id: u64,
+    packet_id: u64,
+    user: Option<Arc<ServerUser<N>>>,
+}
+
+//@@ octo-squirrel/src/codec/shadowsocks/udp.rs:398-406  impl Session  sha=79c481f875a751f4
+impl<const N: usize> udp__Session<N> {
+    fn new(client_session_id: u64, server_session_id: u64, packet_id: u64, user: Option<Arc<ServerUser<N>>>) -> Self {
+        Self { client_session_id, server_session_id, packet_id, user }
+    }
+
+    fn increase_packet_id(&mut self) {
+        self.packet_id = self.packet_id.wrapping_add(1);
+    }
+}
+
+//@@ octo-squirrel-client/src/client/shadowsocks.rs:133-135  mod udp / fn new_key  sha=bd601572270d91f5
+fn new_key(from: SocketAddr, verif_arg2: &Address) -> SocketAddr {
+        from
+    }
+
+//@@ octo-squirrel-client/src/client/shadowsocks.rs:137-140  mod udp / fn to_outbound_send  sha=31db5f18cb2ff9f4
+fn to_outbound_send(item: DatagramPacket, proxy: SocketAddr) -> (DatagramPacket, SocketAddr) {
+        let (content, target) = item;
+        ((content, target), proxy)
+    }
+
+//@@ octo-squirrel-client/src/client/shadowsocks.rs:142-145  mod udp / fn to_inbound_recv  sha=fc7358620b7919dc
+fn to_inbound_recv(item: (DatagramPacket, SocketAddr), verif_arg2: &Address, sender: SocketAddr) -> (DatagramPacket, SocketAddr) {
+        let (item, _) = item;
+        (item, sender)
+    }
+
+//@@ octo-squirrel-client/src/client/shadowsocks.rs:147-151  mod udp / struct DatagramPacketCodec  sha=a064ded263e50c89
+struct DatagramPacketCodec<'a, const N: usize> {
+        codec: udp__SessionCodec<'a, N>,
+        session: udp__Session<N>,
+        filter: PacketWindowFilter,
+    }
+
+//@@ octo-squirrel-client/src/client/shadowsocks.rs:153-157  mod udp / impl DatagramPacketCodec  sha=7d7a12f7c1d658b1
+impl<const N: usize> DatagramPacketCodec<'_, N> {
+        fn new(codec: udp__SessionCodec<N>) -> DatagramPacketCodec<'_, N> {
+            DatagramPacketCodec { codec, session: udp__Session::from(Mode::Client), filter: PacketWindowFilter::default() }
+        }
+    }
+
+//@@ octo-squirrel-client/src/client/shadowsocks.rs:159-166  mod udp / impl Encoder for DatagramPacketCodec  sha=d3cec9aeed301659
+impl<const N: usize> DatagramPacketCodec<'_, N> {
+
+        fn encode(&mut self, verif_arg2: DatagramPacket, dst: &mut BytesMut) -> anyhow::Result<()> { let (content, addr) = verif_arg2;
+            self.session.increase_packet_id();
+            self.codec.encode((content, addr, self.session.clone()), dst)
+        }
+    }
+
+//@@ octo-squirrel-client/src/client/shadowsocks.rs:168-190  mod udp / impl Decoder for DatagramPacketCodec  sha=b2d6ea905290fb89
+impl<const N: usize> DatagramPacketCodec<'_, N> {
+
+        fn decode(&mut self, src: &mut BytesMut) -> anyhow::Result<Option<DatagramPacket>> {
+            if src.is_empty() {
+                Ok(None)
+            } else {
+                match self.codec.decode(src)? {
+                    Some((content, addr, session)) => {
+                        if !self.filter.validate_packet_id(session.packet_id, u64::MAX) {
+                            /*R2*/
+                            return Ok(None);
+                        }
+                        self.session.server_session_id = session.server_session_id;
+                        Ok(Some((content, addr)))
+                    }
+                    None => Ok(None),
+                }
+            }
+        }
+    }
